@@ -11,7 +11,7 @@ import lib
 import suites
 
 PROP = 'C20'
-LEAN_TARGETS = ['CGV.Props.C20']
+LEAN_TARGETS = ['CGV.Props.C20', 'CGV.Props.C20Ring']
 RULE = ('valid graph strings (C04 generator) and valid cut descriptions (C01 generator) with exactly one fault injected '
         'at every applicable position: a ring marker opened and never closed (in a branch, nested, last node, %nn), a '
         'ring bond duplicating an existing edge / the same ring bond twice, a node renamed to a name without fragment, '
